@@ -336,7 +336,7 @@ func rule024(r *core.Run) {
 			r.Violated("R02.4", key(fname(r, rb), "httpError"), r.P.Pos(rb.Pos()), "routeBase no longer calls httpError")
 		} else {
 			errArg := heCall.Call.Args[len(heCall.Call.Args)-1]
-			s := r.P.SliceOf(errArg, core.SliceOpts{Depth: 1, StopAt: func(v ssa.Value) bool {
+			s := r.P.SliceOf(errArg, core.SliceOpts{Depth: -1, StopAt: func(v ssa.Value) bool {
 				_, isCall := v.(*ssa.Call)
 				return isCall
 			}})
